@@ -1046,10 +1046,11 @@ theorem agree_dictE {f k : Nat} (h : SInv env senv f) {kt t S v b b'}
   simp only [inDom, hn] at hd
   simp only [encode, hn] at he
   cases hp : dictParts v with
-  | none => simp [hp] at hd
+  | none => simp [dictDom, hp] at hd
   | some p =>
     obtain ⟨ks, vs⟩ := p
-    simp only [hp] at hd he
+    simp only [dictDom, hp] at hd
+    simp only [hp] at he
     simp only [Bool.and_eq_true, beq_iff_eq, List.all_eq_true] at hd
     obtain ⟨⟨⟨⟨⟨⟨hlen, hshape⟩, hkd⟩, hvd⟩, hkr⟩, hkb⟩, hvfit⟩ := hd
     by_cases hemp : ks.isEmpty = true
@@ -1138,6 +1139,7 @@ theorem SInv.succ {f : Nat} (h : SInv env senv f) : SInv env senv (f + 1) := by
     | refT t => exact agree_refT h ha hd he
     | prim p => exact agree_prim (by simpa [agreeb] using ha) hd he
     | dictE kt t => exact agree_dictE h ha hd he
+    | dict kt t => simp [agreeb] at ha
     | cell => simp [agreeb] at ha
     | magic t => simp [agreeb] at ha
     | vmStack e => simp [agreeb] at ha
